@@ -287,7 +287,16 @@ def unparse_Attribute(node: Attribute) -> unparse_gen_t:
 
 def unparse_Subscript(node: Subscript) -> unparse_gen_t:
     value = yield PREC_ATTR_SLOT, node.value
-    _slice = yield PREC_EXPR_SLOT, node.slice
+    if isinstance(node.slice, Tuple) and node.slice.elts:
+        # a[1:2, 3]: slices are only valid in an unparenthesized tuple
+        elts = []
+        for item in node.slice.elts:
+            elts.append((yield PREC_EXPR_SLOT, item))
+        _slice = ",".join(elts)
+        if len(elts) == 1:
+            _slice += ","
+    else:
+        _slice = yield PREC_EXPR_SLOT, node.slice
     return f"{value}[{_slice}]"
 
 
